@@ -243,6 +243,16 @@ def run(cx):
         ui = [i for i, s_ in enumerate(stmts) if "unary" in s_ and "inner" in s_]
         ok = bool(si) and any(x in stmts[si[0]] for x in ("route_mut", "with_route", "set_route")) and "request" in stmts[si[0]] and bool(ui) and si[0] < ui[-1]
         ob.require(ok, "client/route-assignment", f"route hole statement: `{Q.render(stmts[si[0]]) if si else None}`", ub.path)
+        # ... unconditionally: whatever request the caller hands in, the generated method sends it to its own route - no branch
+        # in the method body before the call goes out
+        if ui:
+            flat_ = [t for s_ in stmts[:ui[-1] + 1] for t in s_ if isinstance(t, str)]
+            try:
+                flat_ = flat_[flat_.index("fn"):]
+            except ValueError:
+                pass
+            kw = [t for t in flat_ if t in ("if", "match", "while", "loop", "else", "return", "for")]
+            ob.require(not kw, "client/route-assignment-unconditional", f"the generated client method decides something before sending ({kw[:3]}): the route is not set on every call", ub.path)
         ob.require(bool(ui) and "request" in stmts[ui[-1]], "client/unary-sends-request", "client method does not pass `request` to self.inner.unary", ub.path)
         fn_hole = [t for i, t in enumerate(toks) if isinstance(t, Q.Hole) and i > 0 and toks[i - 1] == "fn"]
         ob.require(len(fn_hole) == 1 and ident_term(ub, uo, fn_hole[0].term) == ["Mname"], "client/fn-name", f"client fn name = {ident_term(ub, uo, fn_hole[0].term) if fn_hole else None}", ub.path)
